@@ -122,3 +122,21 @@ def generic_impl(lib, slf=False):
     %s
 }""" % (asy, fin)
     return {"item": item, "actor_ty": "A", "slf": slf}
+
+
+def harness_impl(lib):
+    """the impl block of harness/probe's probe actor (signatures only): lets the LTS predict the harness scenarios"""
+    asy = "" if lib == "std" else "pub async fn asy(&mut self, caller: u32, seq: u32, x: i64) -> i64 { x }"
+    item = """impl Probe {
+    pub fn new(rec: Arc<Rec>) -> Self { todo!() }
+    pub fn tick(&mut self, caller: u32, seq: u32) {}
+    pub fn put(&mut self, (a, b): (u32, u32), c: u32) {}
+    pub fn get(&self) -> i64 { 0 }
+    pub fn add(&mut self, caller: u32, seq: u32, x: i64) -> i64 { x }
+    pub fn gen<T: Into<i64> + Send + 'static>(&mut self, caller: u32, seq: u32, t: T) -> i64 { 0 }
+    pub fn hold(&mut self) {}
+    pub fn boom(&mut self) {}
+    pub fn log(&self) -> Vec<String> { Vec::new() }
+    %s
+}""" % asy
+    return {"item": item, "actor_ty": "Probe"}
